@@ -29,6 +29,7 @@ func init() {
 		MinNontrivial:         5000,
 		MinNontrivialThorough: 120000,
 		Shards:                16,
+		GoMaxProcs:            2,
 		Assumptions: []string{
 			"issuer 'equals' subject is read as byte equality of the two encodings; certificates whose names are equal only after normalisation are counted (ambiguous_name_equality) and not asserted",
 			"self-signature is decided only for key/algorithm combinations the independent verifier can decide with certainty (sane RSA, ECDSA P-224..P-521 with strict DER signatures, Ed25519, DSA with hash <= q); others are counted as undecided",
